@@ -139,6 +139,7 @@ def strat_routes(tier):
         'mag': st.sampled_from([0, 0, 0, 0, -9, -12, 9, -30, 30, -100, 100]),
         'fftbackend': U.fft_backends,       # the FFT module behind the backend shim
         # how the executors are handed the shift: "same broadcast rules apply as with samples" - one number stands for both axes
+        'shiftcontainer': st.sampled_from(['tuple', 'tuple', 'list', 'f8array', 'f8array']),      # fixed-sampling functions / methods: any indexable pair
         'shiftform': st.sampled_from(['tuple', 'tuple', 'tuple', 'scalar', 'npscalar'])   # (lists / arrays are unhashable cache keys: outside the accepted domain),
     })
 
@@ -255,10 +256,27 @@ def _check_routes(case, ctx):
             dx_in = wvl * efl / (shape[1] * dxo * Qx)
             Qtrue = (wvl * efl / (shape[0] * dxo * dx_in), wvl * efl / (shape[1] * dxo * dx_in))
             sh_units = (shift[0] * dxo, shift[1] * dxo)
+        # the shift (in output units) as the caller's own container: a tuple, a list, or one float64 / float32 array object that is handed to
+        # both methods one after the other and must come back unchanged
+        cform = case.get('shiftcontainer', 'tuple')
+        if not shifted:
+            cform = 'tuple'      # documented type "tuple of float"; other indexable pairs are accepted (observed) for non-zero shifts only
+        sh_tuple = sh_units
+        if cform != 'tuple':
+            sh_units = {'list': list(sh_tuple), 'f8array': np.array(sh_tuple, dtype=np.float64), 'f4array': np.array(sh_tuple, dtype=np.float32)}[cform]
+            if cform == 'f4array':      # what the library is given is the rounded value
+                shift = tuple(float(v) / dxo for v in sh_units)
+                shifted = any(v != 0 for v in shift)
+            ctx.label('shift-container:' + cform)
+        sh_before = None if cform == 'tuple' else np.array(sh_units, copy=True)
         ref_p = U.ref_dft(fnum, Qtrue, outp, shift, fwd)
         ref_m = U.ref_dft(fnum, Qtrue, outp, (-shift[0], -shift[1]), fwd) if shifted else ref_p
         res = {}
         for method in ('mdft', 'czt'):
+            if sh_before is not None:
+                ctx.require(type(sh_units) is type(sh_before) or isinstance(sh_units, list), 'shift-argument-modified', 'shift container replaced')
+                ctx.require(np.array_equal(np.asarray(sh_units), sh_before), 'shift-argument-modified',
+                            'the caller\'s shift %s was changed by an earlier call: %r -> %r' % (cform, sh_before.tolist(), np.asarray(sh_units).tolist()))
             if via == 'function':
                 fn = P.focus_fixed_sampling if fwd else P.unfocus_fixed_sampling
                 o = ctx.call(fn, f, dx_in, efl, wvl, dxo, out_arg, shift=sh_units, method=method)
@@ -276,6 +294,9 @@ def _check_routes(case, ctx):
                                '%s via %s %s %s->%s dx_in=%g dx_out=%g shift=%r' % (method, via, 'focus' if fwd else 'unfocus', shape, outp, dx_in, dxo, sh_units),
                                _scale(fnum, Qtrue))
         U.check_equal(f, f_before, 'input-modified', 'the propagation modified its input array')
+        if sh_before is not None:
+            ctx.require(np.array_equal(np.asarray(sh_units), sh_before), 'shift-argument-modified',
+                        'the caller\'s shift %s was changed: %r -> %r' % (cform, sh_before.tolist(), np.asarray(sh_units).tolist()))
 
 
 # ---- (c) FFT route ----------------------------------------------------------------------------------
@@ -327,7 +348,7 @@ def strat_hist_op(tier):
         'shift': st.sampled_from([[0, 0], [0, 0], [1, 0], [0.5, -1.5]]),
     })
     call = st.fixed_dictionaries({'op': st.just('call'), 'fn': st.sampled_from(['dft2', 'idft2', 'czt2', 'iczt2']), 'geo': geo,
-                                  'dtype': st.sampled_from(['complex128', 'float64', 'complex64']), 'seed': st.integers(0, 50)})
+                                  'dtype': st.sampled_from(['complex128', 'complex128', 'float64', 'complex64', 'float32', 'int64', 'uint8', 'bool']), 'seed': st.integers(0, 50)})
     return st.one_of(call, call, call,
                      st.fixed_dictionaries({'op': st.just('clear'), 'which': st.sampled_from(['mdft', 'czt', 'both'])}),
                      st.fixed_dictionaries({'op': st.just('precision'), 'bits': st.sampled_from([32, 64])}),
@@ -335,6 +356,12 @@ def strat_hist_op(tier):
                      # an earlier call again with another shift (everything else equal): bases / kernels shared between shifts of one geometry
                      st.fixed_dictionaries({'op': st.just('reshift'), 'idx': st.integers(0, 30), 'seed': st.integers(0, 50),
                                             'shift': st.sampled_from([[0, 0], [0, 0], [1, 0], [0, 1], [-1, -1], [-2, -2], [-1, 0], [-2, 0], [0.5, -1.5], [2.25, 3]])}),
+                     # an earlier call again with exactly one other argument changed (output window smaller / larger / other parity, another Q,
+                     # another input shape): whatever one geometry left in the executor must not be taken for a neighbouring one
+                     st.fixed_dictionaries({'op': st.just('vary'), 'idx': st.integers(0, 30), 'seed': st.integers(0, 50), 'what': st.sampled_from(['out', 'out', 'out', 'Q', 'shape']),
+                                            'out': st.sampled_from([1, 2, 3, 4, 5, 6, 7, 8, 9, [6, 4], [5, 7], [3, 8], [7, 3], [4, 6]]),
+                                            'Q': st.sampled_from([1, 2, 1.5, 3, [2, 1.5], [1.5, 2], 0.75]),
+                                            'shape': st.sampled_from([[4, 4], [5, 5], [4, 5], [5, 4], [3, 6], [6, 6], [7, 7]])}),
                      # a burst of many distinct small geometries (bounded caches, eviction, counters); nothing but termination is asserted for the burst
                      # itself, later operations re-visit earlier geometries
                      st.fixed_dictionaries({'op': st.just('burst'), 'n': st.sampled_from([20, 40, 70, 300]), 'fn': st.sampled_from(['dft2', 'idft2', 'czt2', 'iczt2']),
@@ -423,6 +450,15 @@ class ExecutorHistory:
             op = {'op': 'call', 'fn': base['fn'], 'geo': dict(base['geo'], shift=list(op['shift'])), 'dtype': base['dtype'], 'seed': op['seed']}
             ctx.label('op:reshift:' + ('same-shift' if list(op['geo']['shift']) == list(base['geo']['shift']) else 'other-shift'))
             ctx.nt(True)
+        if op['op'] == 'vary':
+            if not self.calls:
+                ctx.label('op:vary-noop')
+                return
+            base = self.calls[op['idx'] % len(self.calls)]
+            w = op['what']
+            op = {'op': 'call', 'fn': base['fn'], 'geo': dict(base['geo'], **{w: op[w]}), 'dtype': base['dtype'], 'seed': op['seed']}
+            ctx.label('op:vary:' + w + (':same' if U.canon(op['geo']) == U.canon(base['geo']) else ':changed'))
+            ctx.nt(True)
         if op['op'] == 'repeat':
             if not self.calls:
                 ctx.label('op:repeat-noop')
@@ -470,14 +506,15 @@ class ExecutorHistory:
         what = '%s(%s, Q=%r, out=%r, shift=%r) %s at precision %d after %d earlier calls' % (fn, geo['shape'], Q, out, shift, op['dtype'], self.prec, len(self.calls) - 1)
         ctx.require(got.dtype == want.dtype, 'history:dtype', '%s: dtype %s but a fresh executor gives %s' % (what, got.dtype, want.dtype))
         e = U.relerr(got, want)
-        ctx.require(e <= 1e-12 if self.prec == 64 and op['dtype'] != 'complex64' else e <= 1e-5, 'history:value',
+        ctx.require(e <= 1e-12 if self.prec == 64 and op['dtype'] not in ('complex64', 'float32') else e <= 1e-5, 'history:value',
                     '%s: differs from a fresh executor by %.3g' % (what, e))
         shifted = any(s != 0 for s in shift)
         fwd = fn in ('dft2', 'czt2')
         outp = U.as_pair(out)
-        ref_p = U.ref_dft(f, U.as_pair(Q), outp, shift, fwd)
-        ref_m = U.ref_dft(f, U.as_pair(Q), outp, (-shift[0], -shift[1]), fwd) if shifted else ref_p
-        _cmp(ctx, got, ref_p, ref_m, shifted, _tol(self.prec, op['dtype']), 'history:vs-reference', what, _scale(f, Q))
+        fnum = f.astype(np.float64) if f.dtype.kind in 'bui' else f          # the oracle side works on the numeric values
+        ref_p = U.ref_dft(fnum, U.as_pair(Q), outp, shift, fwd)
+        ref_m = U.ref_dft(fnum, U.as_pair(Q), outp, (-shift[0], -shift[1]), fwd) if shifted else ref_p
+        _cmp(ctx, got, ref_p, ref_m, shifted, _tol(self.prec, op['dtype']), 'history:vs-reference', what, _scale(fnum, Q))
         for obj, copy_, desc in self.kept:
             ctx.require(obj.shape == copy_.shape and bool(np.all(obj == copy_)), 'history:result-overwritten', 'the result of an earlier call (%s) changed during %s' % (desc, what))
         self.kept = (self.kept + [(got, got.copy(), what)])[-3:]
